@@ -86,6 +86,7 @@ class Gen:
         self.events = []      # abstract event log for coverage signature
         self.skipped = {}
         self.last_keys = {}
+        self.history = {}     # handle -> call ops emitted on it (for echo / replay on a reborn object)
         self.force_solver = None
         self.hits = {}
         self.dead = set()     # handles on which the built-in solver hung: never handed to it again
@@ -123,6 +124,8 @@ class Gen:
             self.dead.add(op.get("h"))
             return None
         self.refs.append(ref)
+        if op["op"] == "call" and op.get("m") not in ("eq",):
+            self.history.setdefault(op["h"], []).append(op)
         self.probe(op, ref)
         if isinstance(ref, dict) and "obj" in ref:
             name = op.get("h") if op["op"] in ("new", "restore") else op.get("out")
@@ -782,6 +785,7 @@ def gen_c09(rng, oracle, run_index, tier="quick"):
     g = Gen(rng, p, oracle)
     pair_solver = rng.choice(["builtin", "builtin", {"mode": "exact"}, None])
     echo_prob = rng.choice([0.0, 0.1, 0.25])
+    forget_prob = rng.choice([0.0, 0.0, 0.03, 0.08])
     # ---- setup population
     first = g.new_model(want_cfg=True if need_cfg else None)
     partner = first
@@ -825,6 +829,41 @@ def gen_c09(rng, oracle, run_index, tier="quick"):
                     g.new_model()
             except RuntimeError:
                 pass
+        if rng.random() < forget_prob and len(g.order) > 2:
+            # the caller forgets an object (freed, its address becomes reusable) and builds a same-shaped one right
+            # away, then repeats what it had asked the dead one: anything keyed by id()/address would now serve
+            # the dead object's data (same-shaped rebuilds land on the freed top-level slot most of the time)
+            cands = [h for h in g.order if h not in (first, partner) and g.handles[h].get("recipe") is not None
+                     and g.handles[h]["kind"] in ("prop", "cfg")]
+            hist = [h for h in cands if g.history.get(h)]
+            if cands:
+                dead = rng.choice(hist) if hist else rng.choice(cands)
+                past = list(g.history.get(dead, []))
+                rec = g.handles[dead]["recipe"]
+                t = g.twin(dead) if rng.random() < 0.7 else None
+                if t is not None:
+                    # the twin was built while the original was alive: rebuild it *after* the free instead
+                    trec = g.ops[-1]["recipe"]
+                    g.ops.pop(); g.refs.pop(); g.order.remove(t); del g.handles[t]
+                else:
+                    trec = copy.deepcopy(rec)
+                g.emit({"op": "forget", "h": dead})
+                g.order.remove(dead)
+                g.events.append(("forget", _rel_tag(g, dead, first), ()))
+                t = g.fresh()
+                ref = g.emit({"op": "new", "h": t, "recipe": trec}, {"twin_of": dead})
+                if t in g.handles:
+                    g.hit("object-forgotten-then-same-shaped-object-built")
+                    rng.shuffle(past)
+                    for pop in past[:3]:
+                        e = _retarget(g, pop, t)
+                        before = len(g.ops)
+                        g.emit(e, {"base": t} if e.get("out") and e["m"] in ("assume", "reduce", "negate", "add", "json_rt", "b64_rt") else None)
+                        if len(g.ops) > before:
+                            g.events.append((e["m"], "reborn", ("echo",)))
+                            n += 1
+                n += 1
+                continue
         forced = None
         if n >= pol_at and not done_pol:
             forced = ("pol", first, pol)
